@@ -42,7 +42,7 @@ def run(ctx, br, profiles=None, prop=None, nats_profiles=None):
                           % (prop, q.get("transport", "adapter")), rep)
     kinds = {}
     dup = unknown = late = drops = 0
-    nats = {"schedules": 0, "outcomes": {}, "register_errors": 0, "empty_frames": 0, "not_open": 0, "oversize_after_register": 0,
+    nats = {"schedules": 0, "outcomes": {}, "register_errors": 0, "malformed_opid_refused": 0, "empty_frames": 0, "not_open": 0, "oversize_after_register": 0,
             "publish_errors": 0, "status_503_found": 0, "status_503_miss": 0, "status_503_from_server": 0,
             "discarded_messages": 0, "frames_into_oversize_or_parked_request": 0}
     for q, r in zip(reqs, resps):
@@ -67,6 +67,7 @@ def run(ctx, br, profiles=None, prop=None, nats_profiles=None):
                     if e[2] == 0:
                         parked.add(e[1])
                     nats["register_errors"] += e[2] == 1
+                    nats["malformed_opid_refused"] += e[2] == 1 and r["opids"][e[1]] == "-1"
                     nats["empty_frames"] += e[2] == 2
                 elif e[0] == 9:
                     nats["not_open"] += 1
